@@ -374,10 +374,25 @@ def menus_task(mname, model, stats, procs_menu):
     return viol
 
 
+def model_by_name(name):
+    """'<model>' or '<model>@<origin>': the model reached by another public route (mc/origins.py)."""
+    base, _, origin = name.partition("@")
+    model = dict(models())[base]
+    if origin:
+        from .. import origins
+
+        model = origins.derive(model, origin)
+    return model
+
+
 def run_task(payload):
     stats, violations = {}, []
-    ms = dict(models())
-    model = ms[payload["model"]]
+    try:
+        model = model_by_name(payload["model"])
+    except Exception as exc:
+        if type(exc).__name__ != "OriginUnavailable":
+            raise
+        return {"violations": [], "stats": {"origin_unavailable": 1}}
     if payload["kind"] == "dfs":
         violations = explore_sampler(payload["model"], model, payload["method"], payload["depth"], payload["dev"], stats)
     else:
@@ -386,8 +401,7 @@ def run_task(payload):
 
 
 def replay(case):
-    ms = dict(models())
-    model = ms[case["model"]]
+    model = model_by_name(case["model"])
     if "menu" in case:
         v = menus_task(case["model"], model, {}, (1, 2, 3))
         return [{"sig": s, "detail": d} for s, c, d in v]
@@ -404,6 +418,16 @@ def explore(ctx):
         for method in ("achr", "optgp"):
             payloads.append({"kind": "dfs", "model": mname, "method": method, "depth": depth, "dev": dev})
         payloads.append({"kind": "menus", "model": mname, "procs": (1, 2) if ctx.tier == "quick" else (1, 2, 3)})
+    # origins: the same models reached by another public route (copy, file formats, rolled-back context, ...)
+    from .. import origins
+
+    omodels = ("forced", "user_inequality") if ctx.tier == "quick" else [m for m, _ in models()]
+    for mname in omodels:
+        for o in origins.ORIGINS:
+            payloads.append({"kind": "menus", "model": f"{mname}@{o}", "procs": (1, 2)})
+            if o in ("copy", "pickle", "sbml", "restored", "in_context"):
+                for method in ("achr", "optgp"):
+                    payloads.append({"kind": "dfs", "model": f"{mname}@{o}", "method": method, "depth": 2, "dev": 2})
     stats = {}
     with ctx.pool(timeout=3000) as pool:
         for i, status, r0 in pool.imap(payloads):
@@ -429,6 +453,9 @@ def explore(ctx):
         "random_answers_consumed_by_the_samplers": stats.get("answers_consumed", 0),
         "points_checked": stats.get("points", 0),
         "menu_calls": stats.get("menu_calls", 0),
+        "origins_pass": "models %s x %d origins (%s): finite menus from every origin, answer sequences to depth 2 from "
+                        "copy/pickle/sbml/restored/in_context; route itself failed for %d" % (
+                            list(omodels), len(origins.ORIGINS), ", ".join(origins.ORIGINS), stats.get("origin_unavailable", 0)),
     })
     ctx.sample({"model": "forced", "method": "achr", "answers": [[3, "hi"], [0, "lo+"], [5, "mid"]]})
     ctx.assumptions += ["uniform() is abstracted to a 5-point menu (end points adversarial, midpoint typical): a bounded "
